@@ -927,6 +927,27 @@ for case in cases:
                             case, dict(delay_and_sum_with_hand_built_tables=ref, theorem="contact_is_das"), run)
             break
 
+# (I1b) raw acquisition dtypes: the samples of the exact classes are small integers, so the same frame stored as
+#       int8 / int16 / int32 / float32 holds the same numbers; with the default or explicit timetrace weights
+#       (float64) contact_tfm must return the same image as for the float64 frame, FMC and HMC alike
+for case in [c for c in cases if c["kind"] == "contact" and c["klass"] == "E" and not c["cplx"] and c["bits"] == (64, 64)][:(25 if Q else 250)]:
+    if not np.array_equal(case["data"], np.round(case["data"])) or np.max(np.abs(case["data"])) > 100:
+        continue
+    sdt = [np.int8, np.int16, np.int32, np.float32][int(rng.integers(0, 4))]
+    fr_s = frame_with(case, case["tx"], case["rx"], case["data"].astype(sdt))
+    chk.count(identity="sample_dtype", stored=np.dtype(sdt).name, mode=case["mode"].split("-")[0])
+    for wts in ("default", [float(v) for v in case["w"]]):
+        for scheme in (0, 1):
+            a_ = call_contact(case, fr_s, scheme, 0.0, weights=wts)
+            b_ = call_contact(case, case["frame"], scheme, 0.0, weights=wts)
+            stats["identity_checks"] += 1
+            if images_differ(a_, b_, tol_of(a_, b_, rel=1e-12)):
+                ident_violation("I1b:sample-dtype", f"contact_tfm of a frame whose (integer-valued) samples are stored as {np.dtype(sdt).name} "
+                                "differs from the image of the same samples stored as float64", case,
+                                dict(interpolation=str(SCHEME[scheme]), weights="default" if isinstance(wts, str) else "explicit",
+                                     stored_dtype=np.dtype(sdt).name, image_stored=a_, image_float64=b_))
+                break
+
 # (I2) N_hmc * I_hmc == N_fmc * I_fmc on reciprocal data; (I3) expanded HMC == FMC
 n_i2 = 30 if Q else 300
 for i in range(n_i2):
